@@ -2,6 +2,7 @@
 
 Both live in `impl_policy!::add` (one expansion per flavour) and `SampledLFU`."""
 from lib import *
+from cachelib import ctor_fields
 
 SLFU = "policy::SampledLFU"
 
@@ -619,7 +620,8 @@ def check_C07(rep, fl):
     rep.check(ds == 5, "R07.3", fl, "policy::DEFAULT_SAMPLES", "value", "DEFAULT_SAMPLES == 5", "DEFAULT_SAMPLES == %s (the property states five candidates)" % ds)
     wh = facts.body(SLFU + "::with_hasher")
     whe = norm(return_expr(wh))
-    ok = whe[0] == "agg" and dict(zip(whe[4], whe[3])).get("samples") == ("const", 5, "usize")
+    cf = ctor_fields(facts, whe)   # the literal itself, or a delegation to with_samples_and_hasher(.., DEFAULT_SAMPLES, ..)
+    ok = cf is not None and norm(cf[1].get("samples", ())) == ("const", 5, "usize")
     rep.check(ok, "R07.3", fl, wh, "samples", "SampledLFU::with_hasher sets samples = DEFAULT_SAMPLES", "SampledLFU::with_hasher sets samples to something else: %s" % show(whe))
     pin = facts.body("policy::PolicyInner::with_hasher")
     rep.check(len(calls_to(pin, SLFU + "::with_hasher")) == 1, "R07.3", fl, pin, "ctor", "the policy is built with SampledLFU::with_hasher (5 samples)",
